@@ -232,9 +232,9 @@ def run_property(pid, spec, tier, seed, work, t0, replay=None, no_prove=False):
 
 
 # ----------------------------------------------------------------------------
-reg("C04", gen=gen_civil.gen_c04)
-reg("C05", gen=gen_civil.gen_c05)
-reg("C17", gen=gen_civil.gen_c17, exhaustive={"thorough": True})
+reg("C04", gen=gen_civil.gen_c04, harness_kw={"variant": "ubsan"})   # pure arithmetic: UBSan only (cheap forks)
+reg("C05", gen=gen_civil.gen_c05, harness_kw={"variant": "ubsan"})
+reg("C17", gen=gen_civil.gen_c17, exhaustive={"thorough": True}, harness_kw={"variant": "ubsan"})
 reg("C15", gen=gen_civil.gen_c15_helpers, exhaustive={"quick": True, "thorough": True})
 reg("C16", gen=gen_posix.gen_c16)
 reg("C01", gen=gen_zone.gen_c01)
